@@ -11,7 +11,7 @@ import z3
 from . import smt
 from .smt import (AND, FALSE, I, NOT, OR, S, TRUE, Val, b_of, boolv, i_of, intv, is_bool, is_int, is_none, is_ref,
                   is_str, none, r_of, ref, s_of, strv)
-from .values import (SV, Args, BoolTermV, BoundV, BuiltinV, ClassV, Frame, FuncV, LambdaV, ModuleV, Out, RawV,
+from .values import (NamedTupleClsV, SV, Args, BoolTermV, BoundV, BuiltinV, ClassV, Frame, FuncV, LambdaV, ModuleV, Out, RawV,
                      SeqTermV, St, SuperV, TupleV, Unsupported, V)
 
 
@@ -188,6 +188,23 @@ class CallMixin:
             kw = dict(pa.kw)
             kw.update(args.kw)
             return self.call(st, fv.fn, Args(pa.pos + args.pos, args.tail, kw, args.kwrest or pa.kwrest), node)
+        if isinstance(fv, NamedTupleClsV):
+            if args.tail is not None or args.kwrest is not None:
+                raise Unsupported('namedtuple construction with * arguments', node)
+            vals = list(args.pos)
+            for f in fv.fields[len(vals):]:
+                if f not in args.kw:
+                    return [self.raise_new(st, 'TypeError')]
+                vals.append(args.kw[f])
+            if len(vals) != len(fv.fields):
+                return [self.raise_new(st, 'TypeError')]
+            st = st.copy()
+            o = self.alloc(st, self.cls('tuple_namedtuple'))
+            terms = [self.to_term(st, x) for x in vals]
+            st.LS = z3.Store(st.LS, r_of(o.term), self.seq_of_terms(terms))
+            for f, t in zip(fv.fields, terms):
+                self.hstore(st, r_of(o.term), f, t)
+            return self.ok(st, o)
         if isinstance(fv, SV):
             return self.call_value(st, fv, args, node)
         raise Unsupported(f'call of {fv!r}', node)
@@ -537,6 +554,11 @@ class CallMixin:
         st = st.copy()
         obj = self.alloc(st, ci)
         self.init_class_defaults(st, obj, ci)
+        if any(c.qualname == 'dict' for c in ci.mro):
+            # a subclass of dict starts as an empty dictionary
+            r0 = r_of(obj.term)
+            st.DH = z3.Store(st.DH, r0, z3.K(Val, FALSE))
+            st.DL = z3.Store(st.DL, r0, I(0))
         init = ci.lookup('__init__')
         if init is None:
             ext = [c for c in ci.mro if c.external and c.qualname != 'object']
